@@ -150,6 +150,9 @@ theorem ceil_eq (x : Nat) (hx : x < two64) : ceilJS x = ceilGo x := by
 
 end GV.Proofs.FloatBits
 
+
+/-! ## REPAIRED DEFECTS — theorems about the schemes before fixes/C13-math-trunc.patch and fixes/C13-math-modf.patch
+   (`truncOld`, `modfOld`): refutations of the full statements and the partial theorems that held -/
 namespace GV.Proofs.FloatBits
 open GV.FloatBits
 
@@ -181,15 +184,15 @@ theorem eqInf (f : Nat) (h : f < two64) : (eqBits f posInf || eqBits f negInf) =
     simp [h1, h2]
 
 /-- full-strength Modf statement — NOT claimed (false of the current code) -/
-def modf_full : Prop := ∀ f, f < two64 → modf f = modfGo f
+def modfOld_full : Prop := ∀ f, f < two64 → modfOld f = modfGo f
 
 /-- the override's Modf = upstream Modf (integer part bits, sign and zero-ness of the fraction) except for negative f
     with |f| < 1, f ≠ -0 -/
-theorem modf_partial (f : Nat) (h : f < two64) (hx : ¬ (sign f = 1 ∧ expo f < 1023 ∧ isZero f = false)) :
-    modf f = modfGo f := by
+theorem modfOld_partial (f : Nat) (h : f < two64) (hx : ¬ (sign f = 1 ∧ expo f < 1023 ∧ isZero f = false)) :
+    modfOld f = modfGo f := by
   have hd := decode f h
   have hs : sign f = 0 ∨ sign f = 1 := by unfold sign; omega
-  unfold modf modfGo
+  unfold modfOld modfGo
   rw [eqInf f h]
   by_cases hn : isNaN f = true
   · have hi : isInf f = false := by unfold isInf; unfold isNaN at hn; simp at hn ⊢; intro _; exact hn.2
@@ -243,14 +246,14 @@ theorem modf_partial (f : Nat) (h : f < two64) (hx : ¬ (sign f = 1 ∧ expo f <
         · simp only [hsm, if_false]
 
 /-- witness -0.5: upstream gives integer part -0, the override +0 -/
-theorem modf_counterexample_frac : ¬ modf_full := by
+theorem modfOld_counterexample_frac : ¬ modfOld_full := by
   intro h
   have := h 0xBFE0000000000000 (by decide)
   revert this
   decide
 
 /-- witness -5e-324 (smallest negative subnormal): upstream gives integer part -0, the override returns f itself -/
-theorem modf_counterexample_tiny : modf 0x8000000000000001 ≠ modfGo 0x8000000000000001 := by decide
+theorem modfOld_counterexample_tiny : modfOld 0x8000000000000001 ≠ modfGo 0x8000000000000001 := by decide
 
 example : ¬ (sign 0x4008000000000000 = 1 ∧ expo 0x4008000000000000 < 1023 ∧ isZero 0x4008000000000000 = false) := by decide
 
@@ -260,17 +263,17 @@ namespace GV.Proofs.FloatBits
 open GV.FloatBits
 
 /-- full-strength Trunc statement — NOT claimed (false of the current code) -/
-def trunc_full : Prop := ∀ x, x < two64 → trunc x = truncGo x
+def truncOld_full : Prop := ∀ x, x < two64 → truncOld x = truncGo x
 
 /-- witness 3e9: `float64(int(x))` wraps at 32 bits -/
-theorem trunc_counterexample_large : ¬ trunc_full := by
+theorem truncOld_counterexample_large : ¬ truncOld_full := by
   intro h
   have := h 0x41E65A0BC0000000 (by decide)
   revert this
   decide
 
 /-- witness -5e-324: `1/x == negInf` also holds when the quotient overflows, so x is returned instead of -0 -/
-theorem trunc_counterexample_tiny : trunc 0x8000000000000001 ≠ truncGo 0x8000000000000001 := by decide
+theorem truncOld_counterexample_tiny : truncOld 0x8000000000000001 ≠ truncGo 0x8000000000000001 := by decide
 
 theorem signbit_sign0 (r : Nat) (h : sign r = 0) : signbit r = false := by
   unfold signbit ltZero recipIsNegInf; simp [h]
@@ -296,11 +299,11 @@ theorem truncMag_lt (x : Nat) (h1 : 1023 ≤ expo x) (h2 : expo x < 1054) : trun
 
 /-- the override's Trunc = upstream Trunc for every pattern with |x| < 2^31 (or NaN) that is not a negative non-zero
     value of magnitude ≤ 2^-1024 -/
-theorem trunc_partial (x : Nat) (hx : x < two64) (hsmall : expo x < 1054 ∨ isNaN x = true)
-    (htiny : ¬ (recipIsNegInf x = true ∧ isZero x = false)) : trunc x = truncGo x := by
+theorem truncOld_partial (x : Nat) (hx : x < two64) (hsmall : expo x < 1054 ∨ isNaN x = true)
+    (htiny : ¬ (recipIsNegInf x = true ∧ isZero x = false)) : truncOld x = truncGo x := by
   have hd := decode x hx
   have hs : sign x = 0 ∨ sign x = 1 := by unfold sign; omega
-  unfold trunc
+  unfold truncOld
   by_cases hn : isNaN x = true
   · have : truncGo x = x := by unfold truncGo; simp [hn]
     simp [hn, this]
@@ -396,5 +399,94 @@ theorem trunc_partial (x : Nat) (hx : x < two64) (hsmall : expo x < 1054 ∨ isN
 
 example : (expo 0x4008000000000000 < 1054 ∨ isNaN 0x4008000000000000 = true) ∧
     ¬ (recipIsNegInf 0x4008000000000000 = true ∧ isZero 0x4008000000000000 = false) := by decide
+
+end GV.Proofs.FloatBits
+
+/-! ## Trunc and Modf after the repairs: full strength -/
+namespace GV.Proofs.FloatBits
+open GV.FloatBits
+
+/-- `Trunc` = `Math.trunc` (ECMAScript definition on the exact value) = upstream `Trunc`, ALL bit patterns -/
+theorem trunc_eq (x : Nat) (hx : x < two64) : trunc x = truncGo x := by
+  unfold trunc
+  by_cases hsp : (!isFinite x || isZero x) = true
+  · have h2 : (isZero x || isNaN x || isInf x) = true := by rw [special_iff]; exact hsp
+    have : truncGo x = x := by unfold truncGo; rw [if_pos h2]
+    rw [if_pos hsp, this]
+  · have hsp' : (!isFinite x || isZero x) = false := by simpa using hsp
+    have hsp2 : (isZero x || isNaN x || isInf x) = false := by rw [special_iff]; exact hsp'
+    rw [if_neg hsp]
+    by_cases hbig : expo x ≥ 1075
+    · rw [if_pos hbig, truncGo_big x hbig]
+    · rw [if_neg hbig]
+      by_cases hsm : expo x < 1023
+      · rw [truncMag_small x hsm, truncGo_small x hsm hsp2]; simp [encodeNat]
+      · rw [encode_trunc x hx (by omega) (by omega)]
+
+/-- sign and exponent fields of Go's masked value -/
+theorem truncGo_fields (f : Nat) (h : f < two64) (h1 : 1023 ≤ expo f) (h2 : expo f < 1075) :
+    sign (truncGo f) = sign f ∧ expo (truncGo f) = expo f := by
+  have hd := decode f h
+  have hm : mant f < 2 ^ 52 := by unfold mant two52; omega
+  have hs : sign f ≤ 1 := by unfold sign; omega
+  have hle : truncGo f ≤ f ∧ sign f * two63 + expo f * two52 ≤ truncGo f := by
+    unfold truncGo
+    have c1 : ¬ expo f < 1023 := by omega
+    have hz : isZero f = false := by unfold isZero; simp; omega
+    have hn : isNaN f = false := by unfold isNaN; simp; omega
+    have hi : isInf f = false := by unfold isInf; simp; omega
+    simp only [hz, hn, hi, Bool.or_false, Bool.false_eq_true, if_false, c1, h2, if_true]
+    have := Nat.mod_le (mant f) (2 ^ (1075 - expo f))
+    generalize mant f % 2 ^ (1075 - expo f) = r at *
+    omega
+  have t52 : (2:Nat) ^ 52 = 4503599627370496 := by decide
+  rw [t52] at hm
+  generalize truncGo f = t at *
+  unfold sign expo two63 two52 at *
+  omega
+
+/-- `Modf` = upstream `Modf` (integer part bits; NaN-ness, sign and zero-ness of the fraction), ALL bit patterns -/
+theorem modf_eq (f : Nat) (h : f < two64) : modf f = modfGo f := by
+  have hd := decode f h
+  have hs : sign f = 0 ∨ sign f = 1 := by unfold sign; omega
+  unfold modf modfGo
+  rw [eqInf f h]
+  by_cases hn : isNaN f = true
+  · have hi : isInf f = false := by unfold isInf; unfold isNaN at hn; simp at hn ⊢; intro _; exact hn.2
+    simp [hn, hi]
+  · have hn' : isNaN f = false := by simpa using hn
+    by_cases hi : isInf f = true
+    · simp [hn', hi]
+    · have hi' : isInf f = false := by simpa using hi
+      simp only [hn', hi', Bool.false_eq_true, if_false]
+      have hsx : signbit f = (sign f == 1) := signbit_spec f hn'
+      have key : copysign (if expo f < 1023 then 0 else truncGo f) f = truncGo f := by
+        by_cases hsm : expo f < 1023
+        · rw [if_pos hsm]
+          have hc : copysign 0 f = sign f * two63 := by
+            unfold copysign
+            rw [hsx, signbit_sign0 0 (by decide)]
+            rcases hs with hs | hs
+            · simp [hs]
+            · simp [hs]; decide
+          rw [hc]
+          by_cases hz : isZero f = true
+          · have : truncGo f = f := by unfold truncGo; simp [hz]
+            rw [this]
+            unfold isZero at hz
+            simp only [Bool.and_eq_true, beq_iff_eq] at hz
+            unfold two63 two52 at *; omega
+          · have hz' : isZero f = false := by simpa using hz
+            rw [truncGo_small f hsm (by simp [hz', hn', hi'])]
+        · rw [if_neg hsm]
+          by_cases hbig : 1075 ≤ expo f
+          · rw [truncGo_big f hbig]; unfold copysign; simp
+          · have ⟨hsg, hex⟩ := truncGo_fields f h (by omega) (by omega)
+            have hrn : isNaN (truncGo f) = false := by
+              have : expo f ≠ 2047 := by omega
+              unfold isNaN; simp; omega
+            unfold copysign
+            rw [hsx, signbit_spec _ hrn, hsg]; simp
+      rw [key]
 
 end GV.Proofs.FloatBits
